@@ -1932,7 +1932,7 @@ class Prop(fw.PropBase):
         mpre = fw.run_model('C18', 11, vals)
         mspec = fw.run_model('C18', 12, vals)
         mins = fw.run_model('C18', 14, vals)
-        ntr = 0
+        ntr = n_w_outside = 0
         for i, (c, r) in enumerate(zip(wcases, wres)):
             if r.get('error'):
                 continue
@@ -1947,16 +1947,22 @@ class Prop(fw.PropBase):
             got = [canon_impl_run(x) for x in r['runs']]
             ntr += sum(len(x) for x in got)
             mruns = fold(mo[i][0])
-            if got != mruns:
+            # outside the hypotheses of C18_window_history_spec (runs sharing a cache file under different windows, a
+            # cached run asked below its region_start, unsupported names) the answers depend on what an object still
+            # holds in memory - the refuted statements - and are not compared
+            if not pre[i]:
+                n_w_outside += 1
+            elif got != mruns:
                 j = next((j for j in range(len(got)) if j >= len(mruns) or got[j] != mruns[j]), 0)
                 dis.append({'kind': 'model-vs-impl-answers (window)', 'wcase': i, 'run': j})
             mfs = {fw.as_str(n): fw.as_str(t) for n, t in mo[i][1]}
-            if canon_cache(mfs) != canon_cache(r['cache']):
+            if pre[i] and canon_cache(mfs) != canon_cache(r['cache']):
                 dis.append({'kind': 'model-vs-impl-cache-files (window)', 'wcase': i,
                             'model': {k: mfs[k] for k in sorted(mfs)[:3]}, 'impl': {k: r['cache'][k] for k in sorted(r['cache'])[:3]}})
             if pre[i] and mo[i][0] != mspec[i]:
                 dis.append({'kind': 'model-vs-spec (theorem instance!) (window)', 'wcase': i})
         self.cov['window']['traces_validated_against_impl'] = ntr
+        self.cov['window']['histories_outside_the_precondition_not_compared'] = n_w_outside
         self.cov['traces_validated_against_impl'] += ntr
         self.cov['cache_files_compared'] += sum(len(r.get('cache', {})) for r in wres)
         # read_cached under a window on arbitrary cache files: real method against the model's parser (mode 15)
